@@ -156,9 +156,24 @@ def gen(rng, tier, props=("C04",)):
     rng.shuffle(pair_queue)
     if tier == "quick":
         nprog = max(nprog, len(pair_queue) + 120) if not is_scaled() else nprog
-    while len(progs) < nprog and tries < nprog * 40:
+    # structured stream: an EMPTY slice that starts at the end of its extent (every way of writing one) in one dimension
+    # together with a non-zero lower bound (every way of writing one) in another: the offset must not leave the source span
+    end_queue = []
+    if not is_scaled() or True:
+        for lay_ in (0, 1, 2):
+            for ek in ("P", "T", "PC", "Sd", "Sc"):
+                for ok_ in ("I", "IC", "P", "Sd"):
+                    for pos in (0, 1):
+                        end_queue.append((lay_, ek, ok_, pos))
+        rng.shuffle(end_queue)
+        if tier == "quick":
+            end_queue = end_queue[:60]
+        if is_scaled():
+            end_queue = end_queue[:12]
+    while (len(progs) < nprog or end_queue) and tries < nprog * 40 + 4000:
         tries += 1
-        forced = pair_queue.pop() if pair_queue else None
+        endspec = end_queue.pop() if end_queue else None
+        forced = pair_queue.pop() if (pair_queue and endspec is None) else None
         t = rng.randrange(8)
         T = CTYPES[t]
         M = imax(t)
@@ -166,6 +181,8 @@ def gen(rng, tier, props=("C04",)):
         R = rng.choice([1, 2, 2, 3, 3] + ([4] if maxR >= 4 else []))
         boundary = rng.random() < 0.35
         big = rng.random() < 0.12
+        if endspec is not None:
+            lay = endspec[0]; R = 2; boundary = False; big = False
         if forced is not None:
             lay, fk = forced
             R = len(fk); boundary = False; big = False
@@ -173,6 +190,8 @@ def gen(rng, tier, props=("C04",)):
             # shapes near the representability boundary: one long dimension
             Mb = min(M, 1 << 40)                  # element addresses must stay representable as pointer differences
             es = [1] * R; es[rng.randrange(R)] = rng.choice([Mb, Mb // 2, Mb - 1])
+        elif endspec is not None:
+            es = rng.sample([2, 3, 4, 5], 2)
         elif forced is not None:
             es = rng.sample([4, 5, 6, 7], R) if M >= 7 ** R else [4, 5, 6][:R]     # distinct extents: a shifted stride factor is visible
         else:
@@ -194,6 +213,31 @@ def gen(rng, tier, props=("C04",)):
             nlev = 1
         cur_es, cur_st = list(es), list(src.strides)
         levels, ok = [], True
+        if endspec is not None:
+            nlev = 0
+            _, ek, ok_, pos = endspec
+            Ee, Eo = es[pos], es[1 - pos]
+            def end_slice(E):
+                if ek == "P":
+                    return Sl("P", "std::pair<%s, %s>" % (T, T), [E, E])
+                if ek == "T":
+                    return Sl("T", "std::tuple<%s, %s>" % (T, T), [E, E])
+                if ek == "PC":
+                    return Sl("PC", "std::pair<%s, %s>" % (ic(E), ic(E)), [E, E])
+                if ek == "Sd":
+                    return Sl("S", "%s, %s, %s" % (T, T, T), [E, 0, 1], mask=0)
+                return Sl("S", "%s, %s, %s" % (ic(E), ic(0), ic(1)), [E, 0, 1], mask=7)
+            def other_slice(E):
+                if ok_ == "I":
+                    return Sl("I", T, [E - 1], u=2)
+                if ok_ == "IC":
+                    return Sl("IC", ic(E - 1), [E - 1])
+                if ok_ == "P":
+                    return Sl("P", "std::pair<%s, %s>" % (T, T), [1, E])
+                return Sl("S", "%s, %s, %s" % (T, T, T), [1, E - 1, 1], mask=0)
+            pair = [None, None]
+            pair[pos] = end_slice(Ee); pair[1 - pos] = other_slice(Eo)
+            levels = [pair]
         for lv in range(nlev):
             r = len(cur_es)
             if r == 0:
@@ -228,7 +272,7 @@ def gen(rng, tier, props=("C04",)):
         body = ["using M = %s;" % src.inst.cpp_type(),
                 "tk.next(); std::printf(\"S %ld \", caseno); std::fflush(stdout);",
                 "const M m = drv::read_mapping<M, %d>(tk);" % src.inst.lay,
-                "drv::SubCtx<M> ctx(m); const int* base = ctx.buf.data(); drv::Out o; tk.next();",
+                "drv::SubCtx<M, %d> ctx(m); const int* base = ctx.buf.data(); drv::Out o; tk.next();" % rng.choice([0, 0, 1]),
                 "o.field(\"sp0\", drv::str_i128(drv::to_i128(m.required_span_size())));",
                 "auto v0 = ctx.md;"]
         for l, sls in enumerate(levels, 1):
@@ -260,6 +304,8 @@ def gen(rng, tier, props=("C04",)):
         hist["type=%s" % ITYS[t]] += 1
         if forced is not None:
             hist["kind-pair stream"] += 1
+        if endspec is not None:
+            hist["end-empty slice x non-zero begin stream"] += 1
         if boundary:
             hist["boundary"] += 1
         if big:
@@ -288,7 +334,7 @@ def run_sharded(progs, cases, configs, workdir, model_exe, nshards=16):
 
 def level_fields(d, l):
     L = str(l)
-    return {k[:-len(L)]: v for k, v in d.items() if k.endswith(L) and k[:-len(L)] in ("rk", "ly", "se", "e", "st", "of", "sp", "h", "ad", "sa")}
+    return {k[:-len(L)]: v for k, v in d.items() if k.endswith(L) and k[:-len(L)] in ("rk", "ly", "se", "e", "st", "of", "sp", "h", "ad", "sa", "ac")}
 
 
 def judge(prop, r, cfg):
@@ -341,9 +387,9 @@ def judge(prop, r, cfg):
                     break
         elif prop == "C09":
             if not model_ub or True:
-                for k in ("rk", "ly", "se"):
+                for k in ("rk", "ly", "se", "ac"):
                     if fm.get(k) not in (None, "UB") and f.get(k) != fm.get(k):
-                        out.append((k, "level %d: %s of the result type is %s, the slicing rules give %s" % (l, {"rk": "rank", "ly": "layout", "se": "static extents"}[k], f.get(k), fm.get(k)), True))
+                        out.append((k, "level %d: %s of the result type is %s, the slicing rules give %s" % (l, {"rk": "rank", "ly": "layout", "se": "static extents", "ac": "carried-over types (bit 0: accessor is not the source accessor's offset_policy, bit 1: index type, bit 2: element type; 0 = all carried over)"}[k], f.get(k), fm.get(k)), True))
     if model_ub and prop in ("C04", "C10") and not out:
         out.append(("model", "model reports UB on a generated valid input", False))
     return out
